@@ -152,3 +152,75 @@ Theorem C09_model_refines_flat_spec :
     Forall2 (fun o rr => obs_equiv o (fst rr) (snd rr)) os (combine (mrun None os) (frun [] os)).
 Proof. exact run_refines. Qed.
 Print Assumptions C09_model_refines_flat_spec.
+
+(** Leaf handles ([GetLeaf] hands out a pointer to the node; [Leaf.Value] and
+    [Leaf.Update] read and write through it later).  CTreeHandle.v adds handle
+    slots to the tree model ([hmstep]) and to the flat-map specification
+    ([hfstep], what the check applies to the implementation's own answers).
+    For EVERY sequence of tree operations and handle operations (hold a leaf's
+    handle, update through it, read through it) the model's answers are the
+    specification's. *)
+From Gnmi Require Import CTree.CTreeHandle CTree.CTreeHandleProofs.
+Theorem C09_handles_refine_flat_spec :
+  forall hs : list hop,
+    Forall2 (fun h rr => hobs_equiv h (fst rr) (snd rr)) hs
+            (combine (hmrun hm0 hs) (hfrun hf0 hs)).
+Proof. exact hrun_refines. Qed.
+Print Assumptions C09_handles_refine_flat_spec.
+
+(** in every reachable state the tree is well formed, is the abstraction of the
+    specification's map, both sides hold the same handles, and every live
+    handle stands on a stored leaf *)
+Theorem C09_handles_reachable :
+  forall hs : list hop,
+    wf_tree (fst (hmstate hs)) /\ R (fst (hmstate hs)) (fst (hfstate hs)) /\
+    snd (hmstate hs) = snd (hfstate hs) /\ live_ok (fst (hmstate hs)) (fst (snd (hmstate hs))).
+Proof. exact hreachable. Qed.
+Print Assumptions C09_handles_reachable.
+
+(** the map changes only through add, delete and the update of a stored leaf:
+    an update through a handle is exactly the map update at the handle's own
+    path while its leaf is stored, and changes nothing otherwise *)
+Theorem C09_handle_update_exact :
+  forall (hs : list hop) s v,
+    let t := fst (hmstate hs) in
+    let sl := fst (snd (hmstate hs)) in
+    let t' := fst (fst (hmstep (hmstate hs) (HUpdate s v))) in
+    match sget sl s with
+    | HLive p => forall q, lookup t' q = if path_eqb q p then Some v else lookup t q
+    | _ => t' = t
+    end.
+Proof. exact handle_update_exact. Qed.
+Print Assumptions C09_handle_update_exact.
+
+Theorem C09_handle_value_exact :
+  forall (hs : list hop) s p,
+    let t := fst (hmstate hs) in
+    let sl := fst (snd (hmstate hs)) in
+    sget sl s = HLive p ->
+    exists v, lookup t p = Some v /\ snd (hmstep (hmstate hs) (HValue s)) = RKind (KLeaf v).
+Proof. exact handle_value_exact. Qed.
+Print Assumptions C09_handle_value_exact.
+
+(** a delete that removes a leaf detaches the handles on it (they keep the deleted
+    value; [n] names the group of handles that now share the detached node) *)
+Theorem C09_handle_stale_after_delete :
+  forall (hs : list hop) s p w q c,
+    let t := fst (hmstate hs) in
+    let sl := fst (snd (hmstate hs)) in
+    let n := snd (snd (hmstate hs)) in
+    sget sl s = HLive p -> lookup t p = Some w -> qmatch q p = true -> cnd_eval c w = true ->
+    let st1 := fst (hmstep (hmstate hs) (HOp (ODelete q c))) in
+    sget (fst (snd st1)) s = HStale p n w /\ lookup (fst st1) p = None.
+Proof. exact handle_stale_after_delete. Qed.
+Print Assumptions C09_handle_stale_after_delete.
+
+(** nothing written through a detached handle ever reaches the tree -- not even a
+    leaf added again at the same path -- nor any live handle *)
+Theorem C09_stale_handle_inert :
+  forall (t : tree Z) (sl : slots) n s p e w (us : list Z),
+    sget sl s = HStale p e w ->
+    let st' := fold_left (fun st v => fst (hmstep st (HUpdate s v))) us (t, (sl, n)) in
+    fst st' = t /\ forall s' q, sget sl s' = HLive q -> sget (fst (snd st')) s' = HLive q.
+Proof. exact stale_handle_inert. Qed.
+Print Assumptions C09_stale_handle_inert.
